@@ -341,6 +341,7 @@ def make_world(env, rng, kind, lb_params=None, open_delay=None, get_servers_dela
       ch.inflight.remove(req)
     req['completed'] = True
     req['how'] = how
+    w.completing.append(req)      # its completion is travelling up: the balancer may have let go of it already
     if how == 'reply':
       m = MethodReturnMessage(return_value=('r', req['id']))
     else:
@@ -351,7 +352,10 @@ def make_world(env, rng, kind, lb_params=None, open_delay=None, get_servers_dela
       import traceback
       req['complete_raised'] = (e, traceback.format_exc()[-900:])
       w.complete_raised.append(req)
+    finally:
+      w.completing.remove(req)
   w.complete = complete
+  w.completing = []
 
   def heap_channels():
     return [n.channel for n in w.lb._heap[1:]]
